@@ -138,7 +138,7 @@ func oracleC09(c *HCase) (f *ev.Failure, st hstats) {
 		FromDynamic(vals[0], live)
 		model = decodeRef(mt.Desc, c.Values[0])
 	}
-	sizedBefore, lenChanged := false, false
+	sizedBefore, lenChanged, rtTouched := false, false, false
 	history := ""
 	for i, op := range c.Prog {
 		st.steps++
@@ -155,17 +155,19 @@ func oracleC09(c *HCase) (f *ev.Failure, st hstats) {
 					lenChanged = true
 				}
 			case "size":
+				sizedBefore = true
 				_ = fm.Size()
-				sizedBefore = true
 			case "cssize":
+				sizedBefore = true
 				_ = csproto.Size(live)
-				sizedBefore = true
 			case "rtsize":
+				rtTouched = true
+				sizedBefore = true
 				runtimeSize(mt, live)
-				sizedBefore = true
 			case "rtmarshal":
-				runtimeMarshal(mt, live)
+				rtTouched = true
 				sizedBefore = true
+				runtimeMarshal(mt, live)
 			case "marshal":
 				out, err = fm.Marshal()
 				checkOut = true
@@ -186,28 +188,32 @@ func oracleC09(c *HCase) (f *ev.Failure, st hstats) {
 						// rejecting a canonical encoding is C06's subject; resynchronise the model
 						model = ToDynamic(live, mt.Desc)
 					}
-					sizedBefore, lenChanged = false, false
+					sizedBefore, lenChanged, rtTouched = false, false, false
 				}
 			case "reset":
 				csproto.Reset(live)
 				model = dynamicpb.NewMessage(mt.Desc)
-				sizedBefore, lenChanged = false, false
+				sizedBefore, lenChanged, rtTouched = false, false, false
 			case "clone":
 				live = csproto.Clone(live)
+				sizedBefore, lenChanged, rtTouched = false, false, false // the copy starts with an empty cache
+				// what a clone contains is the owning runtime's business (C11): continue from whatever it holds
+				model = ToDynamic(live, mt.Desc)
 			}
 		})
 		if fail != nil {
-			if op.Kind == "marshal" || op.Kind == "csmarshal" || op.Kind == "marshalto" {
-				// does a fresh copy of the same contents panic as well?  then it is not about the history
-				if freshFails(mt, model) {
-					sizedBefore = true
-					continue
-				}
-				if lenChanged {
-					fail.Sig = sigOf("C09", "panic-stale-size", mt)
-				}
-				fail.Detail += fmt.Sprintf(" at step %d of [%s]; a fresh copy of the same contents marshals fine", i, history)
+			// does a fresh copy of the same contents panic as well?  then it is not about the history
+			if freshFails(mt, model) {
+				return nil, st // C04's subject; the program cannot be continued meaningfully
 			}
+			switch {
+			case lenChanged:
+				// a Size/Marshal happened, then the encoded length changed: the size cached in the message is stale
+				fail.Sig = sigOf("C09", "panic-stale-size", mt)
+			case rtTouched:
+				fail.Sig = sigOf("C09", "panic-after-runtime-size", mt)
+			}
+			fail.Detail += fmt.Sprintf(" at step %d of [%s]; a fresh copy of the same contents marshals fine", i, history)
 			return fail, st
 		}
 		if checkOut {
@@ -234,8 +240,11 @@ func oracleC09(c *HCase) (f *ev.Failure, st hstats) {
 				}
 				if !same {
 					kind := "bytes-differ-from-fresh-copy"
-					if lenChanged {
+					switch {
+					case lenChanged:
 						kind = "stale-size"
+					case rtTouched:
+						kind = "differs-after-runtime-size"
 					}
 					return ev.Failf(sigOf("C09", kind, mt), "step %d of [%s]: %s returned %.80x (%d bytes), marshaling a fresh deep copy of the current contents %.160v returns %.80x (%d bytes)", i, history, op.Kind, out, len(out), model, want, len(want)), st
 				}
@@ -257,6 +266,7 @@ var c09Kinds = []string{"copyfield", "copyfield", "copyfield", "copychild", "cop
 func TestC09(t *testing.T) {
 	rec := ev.New("C09", "case = one live message of a generated type + a pool of 2..4 generated values + a program of <= 25 ops over {copy a field (or a field of an existing child) from a pool value = set / clear / grow / shrink through plain reflection stores, Size, Marshal, MarshalTo, csproto.Size, csproto.Marshal, the owning runtime's own Size and Marshal, Unmarshal(pool value), Reset, Clone (continue on the clone)}; invariant after every Marshal/MarshalTo/csproto.Marshal: the bytes equal Marshal of a FRESH message populated from the model of the current contents (up to map-entry order when a map has >= 2 entries), no op panics; the concurrent clause runs in a -race binary (TestC09Race); non-trivial = a Marshal* preceded by a Size/Marshal (own, csproto's or the runtime's) and a later mutation that changed the encoded length; distinct by program")
 	defer rec.Write()
+	useRecorder(rec)
 	defer func() { t.Log(rec.Summary()); fmt.Print(rec.SurveyReport()) }()
 	mine := shardTypes(fmTypes(nil))
 	if len(mine) == 0 {
@@ -266,7 +276,7 @@ func TestC09(t *testing.T) {
 		mt := rapid.SampledFrom(mine).Draw(rt, "type")
 		c := &HCase{Type: mt.Key()}
 		for i := rapid.IntRange(2, 4).Draw(rt, "nvalues"); i > 0; i-- {
-			_, b := canon(genDyn(rt, mt.Desc, 2, genOpts{requiredProb: 10, maxMap: 2}))
+			_, b := canon(genDyn(rt, mt.Desc, 2, genOpts{runtime: mt.Info.Runtime, requiredProb: 10, maxMap: 2}))
 			c.Values = append(c.Values, b)
 		}
 		for i := rapid.IntRange(2, 25).Draw(rt, "nops"); i > 0; i-- {
@@ -299,6 +309,7 @@ func hexAll(bs [][]byte) []string {
 func TestC09Race(t *testing.T) {
 	rec := ev.New("C09", "concurrent clause: N in {2,8,32} goroutines released together call Size / Marshal / MarshalTo / csproto.Marshal on ONE unmutated message whose size cache is empty at the start; every output must equal the bytes of a fresh copy; the binary is built with -race")
 	defer rec.Write()
+	useRecorder(rec)
 	defer func() { t.Log(rec.Summary()) }()
 	rec.Extra("race_detector", raceEnabled)
 	mine := shardTypes(fmTypes(func(mt *MsgType) bool {
@@ -309,7 +320,7 @@ func TestC09Race(t *testing.T) {
 	}
 	ev.Rapid(t, ev.N(300, 12000), 99, func(rt *rapid.T) {
 		mt := rapid.SampledFrom(mine).Draw(rt, "type")
-		_, b := canon(genDyn(rt, mt.Desc, 2, genOpts{requiredProb: 10, maxMap: 1}))
+		_, b := canon(genDyn(rt, mt.Desc, 2, genOpts{runtime: mt.Info.Runtime, requiredProb: 10, maxMap: 1}))
 		c := &GCase{Type: mt.Key(), Value: b}
 		n := rapid.SampledFrom([]int{2, 8, 32}).Draw(rt, "goroutines")
 		iters := rapid.IntRange(1, 20).Draw(rt, "iters")
